@@ -278,6 +278,12 @@ func (x *Exec) astType(e ast.Expr) types.Type {
 		}
 	case *ast.ParenExpr:
 		return x.astType(t.X)
+	case *ast.MapType:
+		return types.NewMap(x.astType(t.Key), x.astType(t.Value))
+	case *ast.StructType:
+		if t.Fields == nil || len(t.Fields.List) == 0 {
+			return types.NewStruct(nil, nil)
+		}
 	case *ast.InterfaceType:
 		return types.Universe.Lookup("any").Type()
 	}
